@@ -69,6 +69,21 @@ pub enum ReceiverGeneration {
 /// elided lifetime in the return type would refer to `&self`. The function behind the method borrows
 /// from its dependency, which is `__impl`: name that lifetime.
 pub fn tie_elided_output_to_impl(sig: &mut syn::Signature) {
+    tie_elided_output(sig, TieTo::ImplParam)
+}
+
+/// A function without dependency (`no_deps`) gets a `&self` receiver inserted. An elided lifetime in its return
+/// type refers to its (only) borrowed parameter, and would refer to `&self` afterwards: name that lifetime.
+pub fn tie_elided_output_to_params(sig: &mut syn::Signature) {
+    tie_elided_output(sig, TieTo::Params)
+}
+
+enum TieTo {
+    ImplParam,
+    Params,
+}
+
+fn tie_elided_output(sig: &mut syn::Signature, tie_to: TieTo) {
     use syn::visit_mut::VisitMut;
 
     struct Elided {
@@ -102,7 +117,13 @@ pub fn tie_elided_output_to_impl(sig: &mut syn::Signature) {
     }
 
     let mut elided = Elided {
-        lifetime: syn::Lifetime::new("'entrait_impl", proc_macro2::Span::call_site()),
+        lifetime: syn::Lifetime::new(
+            match tie_to {
+                TieTo::ImplParam => "'entrait_impl",
+                TieTo::Params => "'entrait_arg",
+            },
+            proc_macro2::Span::call_site(),
+        ),
         found: false,
     };
 
@@ -114,9 +135,20 @@ pub fn tie_elided_output_to_impl(sig: &mut syn::Signature) {
         return;
     }
 
-    if let Some(syn::FnArg::Typed(impl_param)) = sig.inputs.iter_mut().nth(1) {
-        if let syn::Type::Reference(reference) = impl_param.ty.as_mut() {
-            reference.lifetime = Some(elided.lifetime.clone());
+    match tie_to {
+        TieTo::ImplParam => {
+            if let Some(syn::FnArg::Typed(impl_param)) = sig.inputs.iter_mut().nth(1) {
+                if let syn::Type::Reference(reference) = impl_param.ty.as_mut() {
+                    reference.lifetime = Some(elided.lifetime.clone());
+                }
+            }
+        }
+        TieTo::Params => {
+            for fn_arg in sig.inputs.iter_mut() {
+                if let syn::FnArg::Typed(param) = fn_arg {
+                    elided.visit_type_mut(param.ty.as_mut());
+                }
+            }
         }
     }
 
